@@ -1166,6 +1166,15 @@ func (bp *boundsProver) factsAtPoint(f *ssa.Function, blk *ssa.BasicBlock, extra
 				hi := r.add(env.lenOfAny(t.Call.Args[0]), -1)
 				hi.c++ // r + 1 - len(s) <= 0
 				out = append(out, linFact{lf: lo, why: "index >= -1"}, linFact{lf: hi, why: "index < len"})
+			case "fmt.Sprintf":
+				// the format's fixed widths give a minimum length
+				if k, ok := t.Call.Args[0].(*ssa.Const); ok && k.Value != nil && k.Value.Kind() == constant.String {
+					if m, okf := fmtMinLen(constant.StringVal(k.Value)); okf && m > 0 {
+						lf := newLin().add(env.lenOfAny(t), -1)
+						lf.c = m
+						out = append(out, linFact{lf: lf, why: "minimum length of the format"})
+					}
+				}
 			case "(encoding/base64.Encoding).Decode", "(base64.Encoding).Decode", "(encoding/base32.Encoding).Decode", "(base32.Encoding).Decode", "encoding/hex.Decode", "hex.Decode":
 				// n, err := enc.Decode(dst, src): n octets were written into dst, so n <= len(dst)
 				for _, ref := range *t.Referrers() {
@@ -1409,6 +1418,9 @@ func (bp *boundsProver) prove(s *boundSite) {
 	bp.goalValues = []ssa.Value{s.Low, s.Upper}
 	if sl, ok := s.Buf.(*ssa.Slice); ok {
 		bp.goalValues = append(bp.goalValues, sl.Low, sl.High)
+	}
+	if _, isCall := s.Buf.(*ssa.Call); isCall {
+		bp.goalValues = append(bp.goalValues, s.Buf)
 	}
 	defer func() { bp.goalValues = saved }()
 	env := newLinEnv()
